@@ -30,6 +30,7 @@ func init() {
 			ruleCombinators(c, "R10")
 			ruleReadersWriteNothing(c, "R11", "hosts", "router")
 			ruleEntryConditionBelongsToTheGroup(c, "R12")
+			ruleParamWriters(c, "R13")
 		},
 	})
 	register(&Spec{
@@ -286,8 +287,7 @@ func ruleMatchersWriteOnAccept(c *Ctx, rule string) {
 				if !ok {
 					return false
 				}
-				kk, isC := r.Results[0].(*ssa.Const)
-				return !(isC && kk.Value != nil && kk.Value.ExactString() == "true")
+				return !alwaysTrue(r.Results[0], 0)
 			}}).Search(an.After(in))
 			o := c.R.Add(rule, k, "write:"+what+"/only-when-accepting", c.pos(in), path == nil, ifelse(path == nil, "no rejecting return is reachable after this write", "the matcher can modify the request or the parameters and then reject"))
 			if path != nil {
@@ -546,8 +546,7 @@ func rulePathVersion(c *Ctx, rule string) {
 			if !ok {
 				return false
 			}
-			k, isC := r.Results[0].(*ssa.Const)
-			return !(isC && k.Value != nil && k.Value.ExactString() == "true")
+			return !alwaysTrue(r.Results[0], 0)
 		}}).Search(an.After(in))
 		c.R.Add(rule, c.fk(f), "first-hit-returns-true", c.pos(in), path == nil, ifelse(path == nil, "the first listed version whose prefix matches accepts", "after a matching version the scan continues or the matcher rejects: not the first listed version wins"))
 	})
@@ -742,6 +741,38 @@ func ruleHeaderVersion(c *Ctx, rule string) {
 // not-found edge of a library search, or after a range over the routers whose body panics on an equal name.
 func dupCheckedBefore(c *Ctx, in ssa.Instruction) bool {
 	if an.DominatedByEdge(in, noDuplicateNameEdge) {
+		return true
+	}
+	// every way to the instruction crosses "the search found nothing" or "the group has no router yet" (a short-cut
+	// `len(g.routers) > 0 && …` in front of the search)
+	emptyList := func(b *ssa.BasicBlock, succ int) bool {
+		return edgeHas(b, succ, func(cond ssa.Value, truth bool) bool {
+			bo, ok := cond.(*ssa.BinOp)
+			if !ok {
+				return false
+			}
+			call, isCall := bo.X.(*ssa.Call)
+			kc, isK := bo.Y.(*ssa.Const)
+			if !isCall || !isK || an.ConstKey(kc) != "0" {
+				return false
+			}
+			cc, isLen := builtinCall(call, "len")
+			if !isLen || an.AP(cc.Args[0]) != "recv.routers" {
+				return false
+			}
+			switch bo.Op {
+			case token.EQL, token.LEQ:
+				return truth
+			case token.GTR, token.NEQ:
+				return !truth
+			}
+			return false
+		})
+	}
+	if (&an.Query{
+		Target:    func(t ssa.Instruction) bool { return t == in },
+		BlockEdge: func(b *ssa.BasicBlock, succ int) bool { return noDuplicateNameEdge(b, succ) || emptyList(b, succ) },
+	}).Search(an.Entry(in.Parent())) == nil {
 		return true
 	}
 	f := in.Parent()
@@ -1254,4 +1285,27 @@ func cutBehindDigitLoop(sl *ssa.Slice) bool {
 		}
 	}
 	return false
+}
+
+// alwaysTrue: the constant true, or the result of a module helper every return of which is (saveVersion(...) that
+// records the parameter and answers true).
+func alwaysTrue(v ssa.Value, depth int) bool {
+	if k, isC := v.(*ssa.Const); isC {
+		return k.Value != nil && k.Value.ExactString() == "true"
+	}
+	call, ok := v.(*ssa.Call)
+	if !ok || depth > 2 {
+		return false
+	}
+	g := an.StaticCallee(&call.Call)
+	if g == nil || !an.InModule(g) || len(g.Blocks) == 0 {
+		return false
+	}
+	rets := an.Returns(g)
+	for _, r := range rets {
+		if len(r.Results) != 1 || !alwaysTrue(an.ReturnValue(r, 0), depth+1) {
+			return false
+		}
+	}
+	return len(rets) > 0
 }
